@@ -3,7 +3,9 @@
 DNS   : TLC enumerates builder histories (GenDnsMsg) and names (GenDnsName) from the RFC 1035 reference, checks
         Parse(Build(h)) = h / Validate(Build(h)) / name round trips ON THE SPEC, and emits every state; the real
         builder must produce byte-identical messages and the same return classes, the real parser must hand
-        back what the reference parser hands back.
+        back what the reference parser hands back.  GenDnsName_many walks the one-octet-label names of 1..128 labels;
+        GenDnsCompr puts names of 1, 2, 63, 64, 65, 127 labels and of 253 octets into the question, owner names and RDATA
+        (CNAME/NS/PTR/MX/SOA), uncompressed (built by the library) and with RFC 1035 4.1.4 pointers (read by the library).
 RADIUS: GenRadius enumerates Init/Add* histories (type-specific length rules, listing); the signing part is
         mode C: the driver logs packets/secrets/authenticators, TraceRadius (TLA+ MD5/HMAC-MD5 evaluated by TLC)
         recomputes RFC 2865/2869 values and the verdict for every single-byte corruption / wrong secret.
@@ -192,6 +194,73 @@ def dns_name_part(ctx, exe, cfgs, G):
     ctx.cov["dns_name_classes"] = cls
     for k in ("valid", "invalid"):
         if not cls.get(k): raise common.Infra("vacuous name corpus: no %s name" % k)
+
+
+# ------------------------------------------------------------------------------------------------ DNS names at the RFC limits / in RDATA / compressed
+def rd_token(rd): return "+".join("%s:%s" % (p["k"], hx(p["v"])) for p in rd) or "-"
+def rd_shape(rd): return "+".join("n" if p["k"] == "n" else "b%d" % len(p["v"]) for p in rd) or "-"
+
+def dns_compr_part(ctx, exe, cfgs, G):
+    """GenDnsCompr scenarios: the real builder assembles the uncompressed message (byte-identical to the reference), the
+    real parser reads back the uncompressed and the reference-compressed message: same names, types, classes, TTLs, data"""
+    n = 0; nlab = set(); ncomp = 0
+    for cfg in cfgs:
+        r, cases = G.pop(("GenDnsCompr", cfg))
+        ctx.tlc_stats(r, "GenDnsCompr/" + cfg)
+        lines = []; meta = []
+        for c in cases:
+            recs = c["recs"]; plain = bytes(c["plain"]); comp = bytes(c["comp"])
+            ops = ["h,%s,%s" % (hx(plain[0:2]), hx(plain[2:4]))]
+            for x in recs:
+                if x["sec"] == "qd": ops.append("q,%s,%d,%d" % (hx(x["name"]), x["t"], x["c"]))
+                else: ops.append("r,%s,%s,%d,%d,%04x%04x,%s" % (x["sec"], hx(x["name"]), x["t"], x["c"], x["ttl"][0], x["ttl"][1], rd_token(x["rd"])))
+            shapes = "|".join(rd_shape(x["rd"]) for x in recs if x["sec"] != "qd") or "-"
+            for cap in (len(plain), len(plain) + 7):
+                lines.append("dnsx %d %s" % (cap, ";".join(ops))); meta.append((c, "built", plain))
+            lines.append("dnsp %s %s" % (hx(plain), shapes)); meta.append((c, "plain", plain))
+            lines.append("dnsp %s %s" % (hx(comp), shapes)); meta.append((c, "compressed", comp))
+            nlab |= {x["nlabels"] for x in recs}
+            ncomp += 1
+        for bname, bexe in exe:
+            for ln, (c, how, msg), a in zip(lines, meta, common.batch_run(bexe, lines, timeout=300)):
+                ctx.add(evaluations=1); recs = c["recs"]
+                rp = {"case": ln, "cfg": cfg, "scenario": c["no"], "build": bname}
+                tagc = "" if how != "compressed" else ":compressed"
+                if isinstance(a, dict):
+                    k = a["crash"]; ctx.fail("dns:names%s:%s:%s" % (tagc, k[0], k[1]), a["raw"], rp); continue
+                _, f = kv(a)
+                if how == "built":
+                    rcs = [int(x) for x in f["rcs"].split(",")]
+                    badstep = next((j for j, rc in enumerate(rcs) if rc != 0), None)
+                    if badstep is not None:
+                        fn = "dns_hdr_create" if badstep == 0 else "DomainNameToSequenceOfLabels" if rcs[badstep] >= 900 else OPFN["q" if recs[badstep - 1]["sec"] == "qd" else "rr"]
+                        ctx.fail("dns:%s:refused-step-that-fits:rc=%d" % (fn, rcs[badstep] - (1000 if rcs[badstep] >= 900 else 0)),
+                                 "step %d (a name of %d labels)\n%s\n%s" % (badstep, recs[badstep - 1]["nlabels"] if badstep else 0, ln, a[:600]), rp); continue
+                    if f["msg"].startswith("OVERCAP") or unhex(f["msg"]) != msg:
+                        ctx.fail("dns:names:message-bytes-differ", "%s\nexpected %s\ngot      %s" % (ln, hx(msg), f["msg"]), rp); continue
+                qs = [x for x in recs if x["sec"] == "qd"]; rrs = [x for x in recs if x["sec"] != "qd"]
+                want = {"val": "0", "sizeget": str(len(msg)), "info": "0,%d" % len(msg),
+                        "cnt": "%d,%d,%d,%d" % tuple(sum(1 for x in recs if x["sec"] == s_) for s_ in ("qd", "an", "ns", "ar")),
+                        "qd": "|".join("%s/%d/%d" % (hx(x["name"]), x["t"], x["c"]) for x in qs) or "-",
+                        "rr": "|".join("%s/%s/%d/%d/%04x%04x/%s" % (x["sec"], hx(x["name"]), x["t"], x["c"], x["ttl"][0], x["ttl"][1], rd_token(x["rd"])) for x in rrs) or "-"}
+                ok = True
+                for k2 in ("val", "sizeget", "info", "cnt", "qd", "rr"):
+                    if f.get(k2) != want[k2]:
+                        what = {"val": "dns_msg_validate", "sizeget": "dns_msg_size_get", "info": "dns_msg_info_get", "cnt": "counters", "qd": "question", "rr": "rr"}[k2]
+                        if k2 == "rr":     # name the first record that differs: owner name / RDATA name / other fields
+                            g = (f.get("rr") or "").split("|"); w = want["rr"].split("|")
+                            j = next((q for q in range(min(len(g), len(w))) if g[q] != w[q]), min(len(g), len(w)))
+                            gi = g[j].split("/") if j < len(g) else []; wi = w[j].split("/") if j < len(w) else []
+                            what = "rr-" + (wi[0] if wi else "count")
+                            if len(gi) == len(wi) == 6 and gi[:5] == wi[:5]: what += ":rdata"
+                        ctx.fail("dns:parse-back%s:%s" % (tagc, what), "%s message of scenario %d (names of %s labels)\nfield %s expected %s\ngot %s\n%s"
+                                 % (how, c["no"], sorted({x["nlabels"] for x in recs}), k2, want[k2][:700], (f.get(k2) or "")[:700], ln[:300]), rp)
+                        ok = False; break
+                if ok:
+                    ctx.add(traces_validated_against_impl=1); n += 1
+    if ncomp == 0 or not {1, 2, 63, 64, 65, 127} <= nlab: raise common.Infra("vacuous name-limit corpus: label counts %s" % sorted(nlab))
+    ctx.add(distinct_nontrivial=3 * ncomp, dns_limit_scenarios=ncomp)
+    ctx.cov["dns_name_limit_label_counts"] = sorted(nlab)
 
 # ------------------------------------------------------------------------------------------------ RADIUS builder
 RFN = {"init": "radius_pkt_init", "add": "radius_pkt_attr_add", "raw": "radius_pkt_attr_add_raw",
@@ -498,16 +567,19 @@ def run(ctx):
     ctx.cov["builds"] = [b for b, _ in exe]
     t = "" if ctx.quick else "_thorough"
     plan = [("GenDnsMsg", ["GenDnsMsg%s.cfg" % t, "GenDnsMsg_bound.cfg", "GenDnsMsg_chain.cfg"]),
-            ("GenDnsName", ["GenDnsName%s.cfg" % t, "GenDnsName_bound.cfg"]),
+            ("GenDnsName", ["GenDnsName%s.cfg" % t, "GenDnsName_bound.cfg", "GenDnsName_many.cfg"]),
+            ("GenDnsCompr", ["GenDnsCompr%s.cfg" % t]),
             ("GenRadius", ["GenRadius_rules.cfg", "GenRadius%s.cfg" % t])]
+    PL = dict(plan)
     jobs = [(m, c) for m, cs in plan for c in cs]
     jobs.sort(key=lambda j: 0 if ("bound" in j[1] or "thorough" in j[1] or "chain" in j[1]) else 1)      # long ones first
     common.tlc_workspace()
     G = dict(zip(jobs, par([(lambda j=j: gen(ctx, j[0], j[1])) for j in jobs], n=4)))
     ctx.log("generators done: %s" % ", ".join("%s=%d" % (c, G[(m, c)][0].distinct) for m, c in jobs))
-    dns_msg_part(ctx, exe, plan[0][1], G)
-    dns_name_part(ctx, exe, plan[1][1], G)
-    corpus = rad_build_part(ctx, exe, plan[2][1], G)
+    dns_msg_part(ctx, exe, PL["GenDnsMsg"], G)
+    dns_name_part(ctx, exe, PL["GenDnsName"], G)
+    dns_compr_part(ctx, exe, PL["GenDnsCompr"], G)
+    corpus = rad_build_part(ctx, exe, PL["GenRadius"], G)
     ctx.log("builders replayed")
     rad_sign_part(ctx, exe, corpus)
     ctx.cov["rule"] = ("cases are the reachable states of the generator specs (every history of builder steps over the configured "
@@ -515,4 +587,5 @@ def run(ctx):
                        "one step after the header / a valid name / a trace line whose reference verdict was decisive")
     ctx.assumptions += ["TLA+ modules specs/wire/{DnsName,DnsMsg,Radius}.tla over specs/crypto/Md5.tla are the oracle (RFC 1035, 2671, 2865, 2866, 2869, 2104, 5176, 5997)",
                         "memory accesses are observed by ASan/UBSan on exact-size heap blocks",
+                        "names longer than 253 octets are outside the quantifier (accepted or refused; if accepted the label-by-label encoding); compressed messages are written by the reference (the library's builder does not compress) with pointer chains of at most 3 jumps, the library only reads them",
                         "DNS id/flags and EDNS flags are opaque two-octet strings; RADIUS add_uint32 takes the value octets in memory order"]
